@@ -282,8 +282,19 @@ def run_order_vector(vec, tid: str, prop: str, variant: int = 0) -> dict:
     rec = Recorder(tid, prop)
     rec.do("set_options", [], keep=False, kw={"sort_graded": vec["graded"], "sort_reverse": vec["reverse"]}, bad=[], prop="C14")
     swapped = (variant // 8) % 2 == 1          # both operands stored over (q1, q0)
-    a = rec.new(_rep_poly(vec["a"], swapped))
-    b = rec.new(_rep_poly(vec["b"], swapped))
+    if vec["kind"] == "mono3":
+        # single monomials in q0, q1, q2 (with a lower-order tail in every other replay)
+        def mono(row, coef):
+            rows, coefs = [list(row)], [[coef]]
+            if variant % 2 and any(row):
+                rows.append([0, 0, 0])
+                coefs.append([3])
+            return build_poly({"shape": [], "names": [0, 1, 2], "rows": rows, "coefs": coefs, "dtype": "int64"})
+        a = rec.new(mono(vec["a"], (1, 2, -1)[variant % 3]))
+        b = rec.new(mono(vec["b"], (1, 2, -1)[variant % 3]))
+    else:
+        a = rec.new(_rep_poly(vec["a"], swapped))
+        b = rec.new(_rep_poly(vec["b"], swapped))
     sps = ("operator", "numpy", "numpoly")
     for n, op in enumerate(("lt", "le", "gt", "ge", "eq", "ne")):
         rec.do("compare", [a, b], keep=False, op=op, spelling=sps[(variant + n) % 3])
@@ -406,8 +417,9 @@ def run_linalg_vector(vec, tid: str, prop: str, variant: int = 0) -> dict:
 
 def order_vectors(dump_path: str):
     out, stats = vectors(dump_path)
-    out = [v for v in out if v["kind"] == "order"]
-    return out, {"vectors": len(out)}
+    pairs = [v for v in out if v["kind"] == "order"]
+    mono3 = [v for v in out if v["kind"] == "mono3"]
+    return pairs, {"vectors": len(pairs) + len(mono3), "always": mono3}
 
 
 def reduce_vectors(dump_path: str):
